@@ -15,7 +15,9 @@ replay = base.replay
 
 NS_SETS = [[EX], [EX + 'deep/'], [EX, EX + 'deep/'], [EX + 'deep/', EX], [RDF], [EX + 'dee'], ['http://other.example/'],
            # entries that end in neither '/' nor '#': a plain string prefix of property names filters its direct children, the bare host filters nothing
-           [EX + 'p'], [EX[:-1]], [EX + 'deep/p', EX + 'deep/er/p'], ['http://example.org/p', RDF]]
+           [EX + 'p'], [EX[:-1]], [EX + 'deep/p', EX + 'deep/er/p'], ['http://example.org/p', RDF],
+           # hash namespaces next to slash namespaces on one path (`.../onto#p1` and `.../p0` agree up to the last '/'), two hash namespaces in one folder
+           [EX + 'onto#'], [EX + 'voc#'], [EX, EX + 'onto#'], [EX + 'onto#', EX + 'deep/'], [EX + 'voc#', EX + 'onto#'], [EX + 'onto']]
 
 
 def deep_graph(rng):
@@ -26,6 +28,8 @@ def deep_graph(rng):
             p = EX + 'deep/' + p[len(EX):]
         elif p.startswith(EX + 'p') and p[-1] == '2' and rng.random() < 0.5:
             p = EX + 'deep/er/' + p[len(EX):]
+        elif p.startswith(EX + 'p') and p[-1] in '02' and rng.random() < 0.45:
+            p = EX + rng.choice(['onto#', 'onto#', 'voc#']) + p[len(EX):]
         out.append((s, p, o))
     return out
 
